@@ -7,7 +7,9 @@
    it is initialised) must FAIL this check (vacuity guard), and the design in which a submitter's
    closeWithError completes a streaming command while the reader is handing it data must exhibit
    NoSendOnClosedChannel (the known finding) - both are checked on every run; so is the variant in which a
-   literal-bearing submitter keeps encMutex after its literal was refused (must violate GoodEnd).
+   literal-bearing submitter keeps encMutex after its literal was refused (must violate GoodEnd), and the variant in
+   which the reader leaves a command in pendingCmds between reading the tag of its tagged response and completing it
+   (must violate AtMostOnce: a closeWithError in between completes it a first time).
 2. ClientConcGen prints every maximal behaviour as a schedule; the harness re-enacts each on a real
    client with the hooks as gates (built with -race): hook order per command (initialised before
    visible), every Wait returns exactly once, nobody blocks, no panic, no race report.
@@ -50,7 +52,7 @@ def run(ctx):
     # literal-bearing submitters keep encMutex while they wait for the continuation request
     ctx.tlc_ok("ClientConc", "ClientConc_lit.cfg", timeout=600)
     for cfg, inv in (("ClientConc_asfound.cfg", None), ("ClientConc_stream.cfg", "NoSendOnClosedChannel"),
-                     ("ClientConc_litleak.cfg", "GoodEnd")):
+                     ("ClientConc_litleak.cfg", "GoodEnd"), ("ClientConc_latetake.cfg", "AtMostOnce")):
         bad = ctx.tlc("ClientConc", cfg, timeout=600, count=False)
         txt = open(bad.out_path, errors="replace").read()
         if bad.status != "violation" or (inv and ("Invariant %s is violated" % inv) not in txt):
